@@ -18,7 +18,10 @@ MODULES = ["NaunetProps.C11"]
 THEOREMS = ["Naunet.C11.grain_parses", "Naunet.C11.dispatch_table", "Naunet.C11.law_trees_match", "Naunet.C11.hh93_depletion_law",
             "Naunet.C11.nu0_law", "Naunet.C11.hh93_thermal_law", "Naunet.C11.rr07_depletion_law", "Naunet.C11.rr07x_thermal_law",
             "Naunet.C11.rr07_guard_law", "Naunet.C11.rr07_h2_law", "Naunet.C11.rr07_cosmicray_law",
-            "Naunet.C11.hh93_cosmicray_law", "Naunet.C11.hh93_photon_law", "Naunet.C11.hh93_ecapture_law"]
+            "Naunet.C11.hh93_cosmicray_law", "Naunet.C11.hh93_photon_law", "Naunet.C11.hh93_ecapture_law",
+            "Naunet.C11.law_trees_match2", "Naunet.C11.surface_trees_match", "Naunet.C11.base_depletion_law",
+            "Naunet.C11.rr07_photon_law", "Naunet.C11.hh93_recombine_law", "Naunet.C11.hh93_surface_law",
+            "Naunet.C11.hh93_reactive_law", "Naunet.C11.hh93_surface_no_tunnel", "Naunet.C11.hh93_surface_symm"]
 RULE = ("dust models {base, hh93, hh93i, rr07, rr07x} x reaction types {freeze, thermal / cosmic-ray / photo / H2-formation desorption, "
         "recombination, electron capture, surface two-body, reactive desorption} x reaction classes {Leeds, UCLCHEM, native} x species "
         "(CO, H2O, CH4, H, H2 ices incl. tunnelling pairs, ions, electrons; table and user binding energies; yields) x signed alpha; "
